@@ -184,6 +184,11 @@ func SplitArgs(s string) ([]string, error) {
 			if !closed {
 				return nil, fmt.Errorf("invalid //go:embed quoted pattern")
 			}
+			// as in the go tool, a quoted pattern must be followed by a blank
+			// or end the line ("a"b is malformed, not two patterns)
+			if i < len(s) && s[i] != ' ' && s[i] != '\t' {
+				return nil, fmt.Errorf("invalid //go:embed quoted pattern")
+			}
 			out = append(out, s[start:i])
 			continue
 		}
